@@ -1,9 +1,18 @@
 """props.py — merges the per-engine property tables in tools/props_d/*.py.
-Each fragment defines PROPS = {"Cxx": {...}} (see props_common.py for the keys)."""
+Each fragment defines PROPS = {"Cxx": {...}} (see props_common.py for the keys).
+A fragment may also define EXTEND = {"Cxx": {...}}: additions to a property that
+another fragment defines (an engine serving properties of several families):
+list-valued keys (engines, classes, clauses, trusted, assumptions) are appended
+without duplicates, string-valued keys (rule, explanation) are appended after a
+blank; applied after all PROPS are merged.  ENGINE_TEXT = {engine: text} gives
+the MANIFEST description of an engine that is not of the usual
+harness-vs-extracted-model shape."""
 import glob, importlib.util, os
 from props_common import ALLOWED_AXIOMS  # noqa
 
 PROPS = {}
+ENGINE_TEXT = {}
+_extend = []
 _d = os.path.join(os.path.dirname(os.path.abspath(__file__)), "props_d")
 for _f in sorted(glob.glob(os.path.join(_d, "*.py"))):
     if os.path.basename(_f) == "__init__.py":
@@ -11,4 +20,20 @@ for _f in sorted(glob.glob(os.path.join(_d, "*.py"))):
     _spec = importlib.util.spec_from_file_location("props_d_" + os.path.basename(_f)[:-3], _f)
     _m = importlib.util.module_from_spec(_spec)
     _spec.loader.exec_module(_m)
-    PROPS.update(_m.PROPS)
+    PROPS.update(getattr(_m, "PROPS", {}))
+    ENGINE_TEXT.update(getattr(_m, "ENGINE_TEXT", {}))
+    _extend.append(getattr(_m, "EXTEND", {}))
+
+for _e in _extend:
+    for _pid, _add in _e.items():
+        if _pid not in PROPS:
+            continue
+        _P = dict(PROPS[_pid])
+        for _k, _v in _add.items():
+            if isinstance(_v, list):
+                _P[_k] = list(_P.get(_k, [])) + [x for x in _v if x not in _P.get(_k, [])]
+            elif isinstance(_v, str):
+                _P[_k] = (_P.get(_k, "") + " " + _v).strip()
+            else:
+                _P[_k] = _v
+        PROPS[_pid] = _P
